@@ -49,12 +49,13 @@ def k3_class(standalone, names):
     return any(up(ch.tasks[n], set()) for ch in standalone for n in names if n in ch.tasks)
 
 
-def force_history(ctx, b, spec, mains, data, rng, case):
+def force_history(ctx, b, spec, mains, data, rng, case, ctxs=None):
     """execute [value of every task of every member chain; mc.force(name, delete_data=D); a few value requests] on a fresh MultiChain
     and express it as a history of the store machine (the MultiChain.force step = one chain_force per member chain, in order)"""
     from taskchain import MultiChain
     mod = b.module()
-    mc = MultiChain([pl.make_config(b, data, main=m) for m in mains])
+    ctxs = ctxs or {}
+    mc = MultiChain([pl.make_config(b, data, main=m, context=ctxs.get(m)) for m in mains])
     chains = [mc[pl.make_config(b, data, main=m).name] for m in mains]
     rec = []
     mod.RUNLOG.clear(); mod.FAIL.clear()
@@ -108,30 +109,42 @@ def run(ctx):
         spec, variants = machine.gen_family(rng, n_variants=rng.randint(2, 5), kinds=[k for k in gen.KINDS_P if k not in ('dir', 'continues')])
         common = rng.choice([None, 'n', 'm::k'])
         mode = rng.random()
+        # a share of the lists: ONE pipeline file behind every member, the members differ by their CONTEXT only (the usual parameter
+        # sweep) — tasks that do not depend on the overridden parameter are the same computation in every member chain
+        ctxmode = rng.random() < 0.35
+        pkeys = [k for k in variants[0]['data'] if k != 'tasks']
+        ctxs = {}
         for v in variants:
             if mode < 0.7:
                 v['ns'] = common
-            spec['files']['main_' + v['file']] = {'uses': ['@cfg/' + v['file'] + (f' as {v["ns"]}' if v['ns'] else '')]}
+            src = variants[0]['file'] if ctxmode else v['file']
+            spec['files']['main_' + v['file']] = {'uses': ['@cfg/' + src + (f' as {v["ns"]}' if v['ns'] else '')]}
+            if ctxmode and pkeys and rng.random() < 0.8:
+                cdict = {rng.choice(pkeys): gen.gen_value(rng, 1, 2, gen.SAFE, gen.SAFE)}
+                if v['ns'] and rng.random() < 0.4:
+                    cdict = {'for_namespaces': {v['ns']: cdict}}
+                ctxs['main_' + v['file']] = cdict
         b = pl.materialize(spec, root / f'm{i}', modname=spec['module'])
         b.module()
         mains = ['main_' + v['file'] for v in variants]
-        reqs.append(builder.encode(spec, b, mains=[(m, None) for m in mains]))
-        metas.append((spec, variants, mains, b, i))
+        reqs.append(builder.encode(spec, b, mains=[(m, ctxs.get(m)) for m in mains]))
+        metas.append((spec, variants, mains, b, i, ctxs))
     outs = ctx.model.many(reqs)
-    for (spec, variants, mains, b, i), mo in zip(metas, outs):
-        case = {'module': spec['module'], 'variants': [{'file': v['file'], 'ns': v['ns']} for v in variants]}
+    for (spec, variants, mains, b, i, ctxs), mo in zip(metas, outs):
+        case = {'module': spec['module'], 'variants': [{'file': v['file'], 'ns': v['ns']} for v in variants], 'contexts': ctxs}
+        ctx.count('members-by-context' if ctxs else 'members-by-file')
         full_case = {**case, 'spec': spec}
         data, data2 = root / f'd{i}', root / f'ds{i}'
         standalone, err_s = [], None
         for m in mains:
-            ch, err = pl.build(b, data2, main=m)
+            ch, err = pl.build(b, data2, main=m, context=ctxs.get(m))
             if err:
                 err_s = err; break
             standalone.append(ch)
         if err_s:
             ctx.count('standalone-error'); b.cleanup_module(); continue
         try:
-            mc = MultiChain([pl.make_config(b, data, main=m) for m in mains])
+            mc = MultiChain([pl.make_config(b, data, main=m, context=ctxs.get(m)) for m in mains])
             merr = None
         except (ValueError, KeyError, AssertionError, RecursionError) as e:
             mc, merr = None, pl.error_kind(e)
@@ -267,11 +280,11 @@ def run(ctx):
         #      C13.multichain_force_fans_out), then some value requests; a fresh MultiChain on a fresh directory
         if names0 and not k6_class(standalone):
             try:
-                freqs.append(force_history(ctx, b, spec, mains, root / f'dm{i}', ctx.rng('multi-force', i), full_case))
+                freqs.append(force_history(ctx, b, spec, mains, root / f'dm{i}', ctx.rng('multi-force', i), full_case, ctxs))
             except (KeyError, ValueError):
                 ctx.count('force-history-skipped')
         # ---- oracle 4 (a share of the cases): the same list in name mode — members must be the standalone name-mode chains
-        if i % 4 == 0:
+        if i % 4 == 0 and not ctxs:
             try:
                 mcn = MultiChain([pl.make_config(b, root / f'dn{i}', main=m) for m in mains], parameter_mode=False)
             except (ValueError, KeyError, AssertionError):
